@@ -314,7 +314,7 @@ fn eval(c: &Case, rep: &mut Report) {
 
 fn main() {
     let ctx = Ctx::from_args("C23");
-    let n: u32 = ctx.tier.pick(6, 7);
+    let n: u32 = std::env::var("C23_N").ok().and_then(|s| s.parse().ok()).unwrap_or(ctx.tier.pick(6, 7));
     let rep = if let Some(c) = ctx.replay_case() {
         let c: Case = serde_json::from_value(c).unwrap();
         let mut rep = Report::new();
